@@ -291,7 +291,7 @@ MANIFEST = {
              "(constructor; hashed donor then model_copy(update) / attribute assignment; hashed then deep copy / dump-validate "
              "round trip; constructor with every optional field passed explicitly), and vocabulary / query tags of the encoders "
              "written differently, so a hash that remembers a derivation or sees which fields were set is refuted (controls "
-             "history/MC_Encoding_hash_memo, _hash_fields_set, _hash_extras_order, _eq_uri; Terms also carry two extra "
+             "history/MC_Encoding_hash_memo, _hash_fields_set, _hash_extras_order, _eq_uri, _eq_nan, _key_strip_value; Terms also carry two extra "
              "attributes given in either order; the encoder is also judged against the OBSERVED equality "
              "of query and vocabulary tags, EncodeIffObservedEqual) -- plus random vocabularies of <= 8 of 17 tags "
              "with lists of <= 8, and TLC validates the observations clause by clause."),
